@@ -216,4 +216,5 @@ func main() {
 	genArchPkgver(repo, out)
 	genTriggersFn(repo, out)
 	genPkginfoFields(repo, out)
+	genSigType(repo, out)
 }
